@@ -24,8 +24,13 @@
 (*                                                                         *)
 (* Literals: [t |-> "num", n |-> <<num,den>>, u |-> unit, k |-> ulps]      *)
 (*   stands for n*(1 + k*1e-7) written in unit u ("" = no unit written),   *)
-(*   [t |-> "str", s], [t |-> "bool", b], [t |-> "none"],                  *)
-(*   [t |-> "arr", shape |-> <<r>> | <<r,c>>].                             *)
+(*   [t |-> "str", s] (a `|` inside s stands for a line break: the value   *)
+(*   is written as a """ block of several lines), [t |-> "bool", b],      *)
+(*   [t |-> "none"],                                                       *)
+(*   [t |-> "arr", shape |-> <<n1, ..>>, dm |-> the dimension bounds       *)
+(*   written on THIS line: the node's on its definition, <<>> on a plain   *)
+(*   modification `v = [..]`, the repeated/changed ones on a typed         *)
+(*   redefinition `v int[:] = [..]`].                                      *)
 (*                                                                         *)
 (* IDEAL   Ideal(p) in {"accept","reject","unspec"}: every constraint      *)
 (*   holds of the FINAL value (three-valued: "U" where the documentation   *)
@@ -65,7 +70,7 @@ Decl     == [t |-> "decl"]
 None     == [t |-> "none"]
 Str(s)   == [t |-> "str", s |-> s]
 Bool(b)  == [t |-> "bool", b |-> b]
-ArrL(sh) == [t |-> "arr", shape |-> sh]
+ArrL(sh, dm) == [t |-> "arr", shape |-> sh, dm |-> dm]
 
 -----------------------------------------------------------------------------
 (* exact rationals <<num, den>>, den > 0 *)
@@ -165,6 +170,9 @@ InBounds(sh, dims) == /\ Len(sh) = Len(dims)
                       /\ \A i \in 1..Len(dims) : /\ (dims[i][1] = -1 \/ sh[i] >= dims[i][1])
                                                  /\ (dims[i][2] = -1 \/ sh[i] <= dims[i][2])
 
+\* an array assignment respects the node's bounds and the bounds written on its own line
+LineOK(a, dims) == InBounds(a.shape, dims) /\ (a.dm = <<>> \/ InBounds(a.shape, a.dm))
+
 \* readings of a scalar program that the documentation does not separate:
 \*   all      every constraint line holds of the final value
 \*   lastonly of several !condition / several !format lines only the last one counts
@@ -174,7 +182,9 @@ Ideal3D(p) ==
   IF asg = <<>> THEN "F"                                  \* declared nodes have a value
   ELSE LET f == Last(asg) IN
   IF IsArr(p) THEN
-       Agree(B3(InBounds(f.shape, p.dims)), B3(\A i \in 1..Len(asg) : InBounds(asg[i].shape, p.dims)))
+       \* the node keeps the bounds of its definition whatever a later typed line declares; not separated:
+\*       whether a non-final assignment, or the line's own declaration, must be respected as well
+       Agree(B3(InBounds(f.shape, p.dims)), B3(\A i \in 1..Len(asg) : LineOK(asg[i], p.dims)))
   ELSE IF f.t = "none" THEN "U"                           \* "has a value" vs "none is a value"
   ELSE LET conds == OfKind(p.cons, "cond")
            fmts  == OfKind(p.cons, "fmt")
@@ -271,9 +281,10 @@ MNodeOK(ty, nu, v, cs, devs) ==
 MachD(p, devs) ==
   LET asg == Assigned(p) IN
   IF asg = <<>> THEN "reject"                             \* node.defined and node.value is None
-  ELSE IF IsArr(p) THEN                                   \* cast_value checks the bounds at every assignment
+  ELSE IF IsArr(p) THEN      \* cast_value checks the bounds at every assignment: a typed line is cast with its
+                             \* own dimension by set_value(), then modify_value casts it again with the node's
        IF "dims_each_assignment" \in devs
-       THEN (IF \A i \in 1..Len(asg) : InBounds(asg[i].shape, p.dims) THEN "accept" ELSE "reject")
+       THEN (IF \A i \in 1..Len(asg) : LineOK(asg[i], p.dims) THEN "accept" ELSE "reject")
        ELSE (IF InBounds(Last(asg).shape, p.dims) THEN "accept" ELSE "reject")
   ELSE IF Last(asg).t = "none" THEN "na"
   ELSE \* property lines act on env.nodes[-1], the node appended LAST, not the node they follow
@@ -452,8 +463,12 @@ Twos(n) == [i \in 1..n |-> 2]
 Cross(n) == {[Twos(n) EXCEPT ![i] = v] : i \in 1..n, v \in 1..4}
 Shapes(dims) == LET n == Len(dims) IN
                 Cross(n) \cup (IF n >= 2 THEN {[i \in 1..n |-> 3], Twos(n - 1)} ELSE {})   \* Twos(n-1): a dimension is missing
+\* what a typed redefinition may write instead of the node's bounds: all free, exactly the shape it
+\* brings, (rank 1) exactly 2
+Redecl(sh, dims) == {<<>>, [i \in 1..Len(dims) |-> <<-1, -1>>], [i \in 1..Len(sh) |-> <<sh[i], sh[i]>>]}
+                    \cup (IF Len(dims) = 1 THEN {<< <<2, 2>> >>} ELSE {})
 DimsOf(f) == IF ~f.arr THEN {<<>>}
-             ELSE Dims1 \cup (IF f.ty \in {"int", "str"} \/ Rich THEN Dims2 ELSE {})
+             ELSE Dims1 \cup (IF f.ty = "int" \/ Rich THEN Dims2 ELSE {})
                         \cup (IF f.ty = "int" THEN Dims3 ELSE {})
 
 VARIABLES p, ph, lv      \* lv: levels of p.cons (generator bookkeeping, not part of the program)
@@ -463,7 +478,7 @@ Init == p = Nil /\ ph = 0 /\ lv = {}
 
 Start == /\ ph = 0
          /\ \E f \in Families : \E dm \in DimsOf(f) :
-              \E d \in {Decl} \cup (IF f.arr THEN {ArrL(s) : s \in Shapes(dm)} ELSE DefTab[<<f.ty, f.nu>>]) :
+              \E d \in {Decl} \cup (IF f.arr THEN {ArrL(s, dm) : s \in Shapes(dm)} ELSE DefTab[<<f.ty, f.nu>>]) :
                 p' = [ty |-> f.ty, nu |-> f.nu, dims |-> dm, def |-> d, mods |-> <<>>,
                       cons |-> <<>>, place |-> "def", by |-> Nil, via |-> "direct"]
          /\ ph' = 1 /\ lv' = {}
@@ -472,8 +487,9 @@ Start == /\ ph = 0
 AddMod == /\ ph = 1 /\ Len(p.mods) < MaxMods
           /\ \A l \in Range(Assigned(p)) : (IF ~IsArr(p) /\ IsFine(p, l) THEN l.t = "none" ELSE TRUE)
           /\ IF IsArr(p)
-             THEN \E s \in Shapes(p.dims) : /\ Len(p.dims) >= 2 => Len(p.mods) = 0       \* rank >= 2: one modification
-                                            /\ p' = [p EXCEPT !.mods = Append(@, ArrL(s))]
+             THEN \E s \in Shapes(p.dims) : \E rd \in Redecl(s, p.dims) :
+                     /\ Len(p.dims) >= 2 => Len(p.mods) = 0       \* rank >= 2: one modification
+                     /\ p' = [p EXCEPT !.mods = Append(@, ArrL(s, rd))]
              ELSE \E m \in ModTab[<<p.ty, p.nu>>] :
                      /\ Len(p.mods) >= 1 => ~IsFine(p, m)
                      /\ p' = [p EXCEPT !.mods = Append(@, m)]
